@@ -1,5 +1,6 @@
 #!/bin/bash
-# regenerates the baseline ledgers (obligation id -> status on the unchanged tree) for all claimed properties, in parallel
+# regenerates the baseline ledgers (obligation id -> status on the unchanged tree) for all claimed properties, 5 at a time
 cd /verif
+mkdir -p .scratch
 ids=${@:-$(ls props | grep -E '^C[0-9]+\.py$' | sed 's/\.py//')}
-for p in $ids; do ( ./check $p --update-baseline > .scratch/rebase_$p.log 2>&1; echo "$p exit=$?  $(grep '^\[C' .scratch/rebase_$p.log | cut -c1-200)" ) & done; wait
+echo $ids | tr ' ' '\n' | xargs -P 5 -I{} sh -c './check {} --update-baseline > .scratch/rebase_{}.log 2>&1; echo "{} exit=$?  $(grep "^\[C" .scratch/rebase_{}.log | cut -c1-200)"'
